@@ -13,6 +13,14 @@
       order     any sibling order of the input gives the same reply (verdict, error, resulting tree)
       routes    built + validated, parsed with validation from XML and from JSON, parsed then validated separately: same
                 verdict, same first error (kind, app-tag), same resulting tree; also with the document's siblings shuffled
+      ops       the same data definitions as rpc input / reply output / notification content (lyd_parse_op + lyd_validate_op, XML and
+                JSON): accepted  <=>  the specification holds on the all-state variant of the schema.  The variant is computed by the
+                model (`Valid.stateVariant`, LyModel/Valid/Ops.lean; theorems `ops_relaxes`, `ops_exact_difference`, `stateVariant_*`,
+                `validate_iff_valid_ops`, `ops_noState` of Props/C02) from the original schema; the generator's own transformation
+                (validgen.state_variant) is compared with it per schema.  The model of lyd_validate_op (`Valid.opsValidate`) follows
+                three facts read from the C source by tools/extractors/ops.py (Generated/OpsFacts.lean: config ignored inside
+                operations, leaf-lists without LYS_CONFIG_W may repeat, lyd_validate_new on the output siblings of a reply) and is
+                compared per route; theorem `opsValidate_current` (model = validate on the variant) builds only while the facts hold.
 Generators: random S1x schemas (validgen), instances valid by construction, one named mutation each.
 """
 import collections, json, os
@@ -23,15 +31,19 @@ from checks.validcomp import COMP, NO_STATE, PRESENT, MULTI, OPER
 
 LEAN_TARGETS = ["LyModel.Props.C02"]
 AUDIT = "Audit/C02.lean"
-GENERATED = ["ValidConsts"]
+GENERATED = ["ValidConsts", "OpsFacts"]
 HARNESS = "api_val"
 ASSUMPTIONS = [
     "schemas from family S1x (S1 of the tree base + unique, nested choices, mandatory in cases); one module; no must/when/leafref",
     "instances are built through the public API or parsed from XML/JSON: sibling lists in libyang's order, instances of a schema node contiguous",
     "values are given in canonical form (the mutation `bad-value` uses values outside the lexical AND value space)",
     "the specification is stated for the non-operational option sets; under LYD_VALIDATE_OPERATIONAL only the correspondence is checked",
+    "operation content: validated with no option (lyd_validate_op has none; LYD_VALIDATE_NO_STATE excluded, see theorem ops_noState); one rpc "
+    "per direction and one notification at the top level of the module, no action / nested notification; the effective ordering of lists "
+    "inside operations (output / notification: always user-ordered) is not part of the specification and not compared",
 ]
-TRUSTED = ["tools/checks/validgen.py (schema/instance generator, mutations, XML/JSON encoders)", "tools/vlib/treegen.py", "harness/treeproto.h (tree loader and canonical dump)"]
+TRUSTED = ["tools/extractors/ops.py (reads the three facts about operations from tree_schema.h, schema_compile_node.c, validation.c)",
+           "tools/checks/validgen.py (schema/instance generator, mutations, XML/JSON encoders)", "tools/vlib/treegen.py", "harness/treeproto.h (tree loader and canonical dump)"]
 
 APPTAG = {"NoMandChoice": "missing-choice", "NoMin": "too-few-elements", "NoMax": "too-many-elements", "NoUniq": "data-not-unique"}
 V_OPTS = [0, PRESENT, NO_STATE, MULTI, OPER, NO_STATE | MULTI, NO_STATE | PRESENT, OPER | MULTI]
@@ -106,20 +118,27 @@ def run(cx):
 
 def operations(cx, cases):
     """the same data definitions as rpc input / rpc output / notification content: libyang's verdict (lyd_parse_op +
-    lyd_validate_op, XML and JSON) against the specification evaluated on the all-state variant of the schema (inside an operation
-    the config statement is ignored: duplicate leaf-list values and key-less list instances are legal, everything else holds)"""
+    lyd_validate_op, XML and JSON) against
+      (S) the specification evaluated on the all-state variant of the schema, computed IN THE MODEL (`Valid.stateVariant`, driver op
+          `opsspec` given the original schema; theorems `ops_relaxes`, `ops_exact_difference`, … of Props/C02 say what the variant
+          does to the constraints: duplicate values of configuration leaf-lists become legal, everything else holds) — law `ops-iff`;
+      (K) the model of lyd_validate_op for the source tree at hand (`Valid.opsValidate OpFacts.current`, facts read from the C source
+          by tools/extractors/ops.py) — correspondence, verdict per route;
+      (V) the all-state variant the generator computes (validgen.state_variant) against the model's (`opsvariant`), per schema."""
     rng = cx.sub_rng("ops")
     pick = [c for c in cases if getattr(c.s, "yang", None) and not isinstance(c.s, vc.ReplaySchema)
             and c.kind not in ("state-node", "missing-key") and not any(getattr(n, "when", None) for n in c.s.nodes)]
     rng.shuffle(pick)
     pick = pick[:cx.n(1500, 12000)]
     cx.rule("ops: %d of the instances above (valid and singly mutated) sent as rpc input, rpc output (reply) and notification content, XML "
-            "and JSON, plus a leaf of the other direction put into input / output (placement)" % len(pick))
+            "and JSON, plus a leaf of the other direction put into input / output (placement); expected verdict = specification on the "
+            "all-state variant computed by the model from the original schema; the model of lyd_validate_op compared per route; the "
+            "generator's all-state variant compared with the model's per schema" % len(pick))
     variants, lines, specl, info = {}, [], [], {}
     for k, c in enumerate(pick):
-        s2 = variants.get(id(c.s))
-        if s2 is None:
-            s2 = variants[id(c.s)] = vg.state_variant(c.s)
+        if id(c.s) not in variants:
+            variants[id(c.s)] = (len(variants), c.s)
+            specl.append("ov%d %s opsvariant %s %s" % (len(variants) - 1, COMP, tg.hx(c.s.dsl()), tg.hx(c.s.xdsl())))
         place = rng.choice([None, None, "ok", "swap"])
         extra = [None, None]
         if place:
@@ -127,37 +146,68 @@ def operations(cx, cases):
         din, dout = vg.op_docs(c.s, c.t, extra[0]), vg.op_docs(c.s, c.t, extra[1])
         docs = din[0:2] + dout[2:4] + din[4:6]
         lines.append("o%d %s ops %s %s" % (k, COMP, tg.hx(vg.op_module(c.s).encode()), " ".join(tg.hx(d) for d in docs)))
-        specl.append("o%d %s spec %s %s 0 %s" % (k, COMP, tg.hx(s2.dsl()), tg.hx(s2.xdsl()), tg.tok(c.t)))
+        specl.append("o%d %s opsspec %s %s %s" % (k, COMP, tg.hx(c.s.dsl()), tg.hx(c.s.xdsl()), tg.tok(c.t)))
         info[k] = (c, place, docs)
     if not lines:
         return
     rep = cx.run_impl(HARNESS, lines, component=COMP, env=vc.ENV)
-    spec = cx.run_model(vc.heads(list(variants.values())) + specl)
+    spec = cx.run_model(specl)
+    # (V) the generator's transformation against the model's
+    for i, s in variants.values():
+        r = spec.get("ov%d" % i, ["err", "NoReply"])
+        s2 = vg.state_variant(s)
+        want = ["ok", tg.hx(s2.dsl()), tg.hx(s2.xdsl()), "1"]
+        cx.count(("opsvariant", s.name, tg.hx(s.dsl())), True, "ops:variant")
+        if r != want:
+            cx.disagree(COMP, "opsvariant %s (all-state variant: generator vs model; last field 1 = tree view and table of the model's variant agree)"
+                        % s.name, want[:1] + [tg.unhx(want[1]).decode()[:600]] + want[2:], r[:1] + [tg.unhx(x).decode("utf-8", "replace")[:600] if j == 0 else x
+                                                                                                      for j, x in enumerate(r[1:])])
     for k, (c, place, docs) in info.items():
         r, sp = rep.get("o%d" % k, ["err", "NoReply"]), spec.get("o%d" % k, ["err", "NoReply"])
-        if r[0] != "ok" or sp[0] != "ok":
+        if r[0] != "ok" or sp[0] != "ok" or "|" not in sp:
             if r[:2] != ["err", "Crash"]:
                 cx.fail(COMP, "ops: no verdict (%s / %s)" % (" ".join(r[:2]), " ".join(sp[:3])), payload(c, "ops-harness", module=vg.op_module(c.s)))
             continue
-        viol = set(sp[2:])
+        bar = sp.index("|")
+        bar2 = sp.index("|", bar + 1)
+        viol, viol0 = set(sp[2:bar]), set(sp[bar2 + 2:])
+        mroute = dict(f.split("=", 1) for f in sp[bar + 1:bar2])
+        # theorems ops_relaxes / ops_exact_difference, evaluated: the variant's violated families are among the schema's, and only Dup can
+        # be missing; counted: instances that are invalid datastore content and valid operation content
+        if not viol <= viol0 or not (viol0 - viol) <= {"Dup"}:
+            cx.disagree(COMP, "opsspec %s: violations of the variant %s vs of the schema %s contradict ops_relaxes / ops_exact_difference"
+                        % (specl_line(c), sorted(viol), sorted(viol0)), sorted(viol0), sorted(viol))
+        cx.dist["ops:datastore %s, operation content %s" % ("valid" if not viol0 else "invalid", "valid" if not viol else "invalid")] += 1
+        if viol0 != viol:
+            cx.dist["ops:Dup of a configuration leaf-list only (family legal in an operation)"] += 1
         for i, f in enumerate(r[1:]):
             name, res = f.split("=", 1)
             misplaced = place == "swap" and not name.startswith("notif")
             want = not viol and not misplaced
             cx.count(("ops", c.s.name, tg.tok(c.t), name, place), True, "ops:%s:%s%s" % (name.split(".")[0], "valid" if not viol else "invalid", ":misplaced-leaf" if misplaced else ""))
+            # (K) the model of lyd_validate_op for this source tree
+            mv = mroute.get(name.split(".")[0], "?")
+            if (res[0] == "V") != (mv == "V" and not misplaced):
+                cx.disagree(COMP, "opsspec route %s of %s: %s" % (name, specl_line(c), docs[i].decode("utf-8", "replace")[:800]), [res[:120]],
+                            [mv + (" + misplaced leaf" if misplaced else "")])
+            # (S) the law
             if (res[0] == "V") != want:
                 what = ("libyang accepts %s that violates the schema (%s)" % ("{}", ",".join(sorted(viol) or ["a node of the other direction"]))) if res[0] == "V" \
                     else "libyang rejects %s that satisfies every constraint of the schema"
                 kind = {"in": "an rpc input", "out": "an rpc output", "notif": "a notification"}[name.split(".")[0]]
                 cx.fail(COMP, what.format(kind) if "{}" in what else what % kind,
                         payload(c, "ops-iff", route=name, spec=sorted(viol), got=res[:300], doc=docs[i].decode("utf-8", "replace")[:3000],
-                                module=vg.op_module(c.s), placement=place))
+                                module=vg.op_module(c.s), placement=place, model=mv))
             elif res[0] != "V" and viol and not misplaced:
                 kd = vc.dec_err(res[2:].split(";")[0])[0]
                 if kd not in viol and not (kd == "NoKey" and "BadValue" in viol):
                     cx.fail(COMP, "ops: the reported error (%s) is not a constraint the %s violates (%s)" % (kd, name, ",".join(sorted(viol))),
                             payload(c, "ops-tag", route=name, spec=sorted(viol), got=res[:300], doc=docs[i].decode("utf-8", "replace")[:3000],
                                     module=vg.op_module(c.s)))
+
+
+def specl_line(c):
+    return "schema %s instance %s" % (c.s.name, tg.tok(c.t)[:200])
 
 
 def load_corpus(cx):
